@@ -7,7 +7,7 @@ at that position by a non-negated atom of the query. For a query made of a singl
 exactly the successive leftmost non-overlapping occurrences, and for a single regular expression they cover exactly
 the bytes of the engine's non-empty matches (newline bytes excluded in line mode).
 -/
-import ZoektModel.C02.Lemmas3
+import ZoektModel.C02.Lemmas6
 namespace ZoektModel.C02
 open ZoektModel ZoektModel.C03
 
@@ -207,6 +207,124 @@ theorem breakMatches_ordered (text : Bytes) (ms : List Cand) (hb : ∀ c ∈ ms,
     omega
 
 example : breakOnNewlines [97, 10, 10, 98, 99, 10] ⟨false, 0, 6⟩ = [⟨false, 0, 1⟩, ⟨false, 3, 2⟩] := by decide
+
+/-- **`lookup` over the builder's map** (restated from Lemmas4): the sampled byte offset of the enclosing 100-rune window
+    and the number of runes left to walk, for every sample list and every rune offset inside the sampled range -/
+theorem runeOffsetMap_lookup_exact (S : List Nat) (R : Nat) (h : R / freq < S.length) :
+    lookup (makeRuneOffsetMap S) R = (S.getD (R / freq) 0, R % freq) := lookup_exact S R h
+
+/-- **`findOffset_exact`**: for every corpus of documents (contents, or names) none of which ends in a truncated
+    multi-byte sequence (`Clean`; implied by valid UTF-8), every document `idx` and every rune index `r` of an existing
+    rune of that document, `findOffset` — the sampled table built by the builder, `makeRuneOffsetMap`, the binary search of
+    `lookup`, and the walk over at most 99 runes inside a window of `4 * 100` bytes — returns exactly the byte offset of
+    the `r`-th rune of the document: across every sampling boundary and every document boundary. -/
+theorem findOffset_exact (docs : List Bytes) (hclean : ∀ d ∈ docs, Clean d) (idx r : Nat) (hidx : idx < docs.length)
+    (hr : r < runeCount (docs.getD idx [])) (limit : Option Nat) (hlim : ∀ n, limit = some n → 4 * 99 ≤ n) :
+    findOffset (Posting.ofDocs docs) false limit idx r = advance r (docs.getD idx []) := by
+  have inv := pinv_ofDocs docs hclean
+  -- split the corpus around document idx
+  have hsplit : docs = docs.take idx ++ docs.getD idx [] :: docs.drop (idx + 1) := by
+    have h1 : docs.getD idx [] = docs[idx] := by simp [List.getD_eq_getElem?_getD, List.getElem?_eq_getElem hidx]
+    rw [h1]; simp
+  have hcpre : Clean (docs.take idx).flatten :=
+    clean_flatten _ (fun d hd => hclean d (List.mem_of_mem_take hd))
+  have hcd : Clean (docs.getD idx []) := by
+    apply hclean
+    have h1 : docs.getD idx [] = docs[idx] := by simp [List.getD_eq_getElem?_getD, List.getElem?_eq_getElem hidx]
+    rw [h1]; exact List.getElem_mem hidx
+  have hC : (Posting.ofDocs docs).corpus =
+      (docs.take idx).flatten ++ (docs.getD idx [] ++ (docs.drop (idx + 1)).flatten) := by
+    rw [inv.corpus]
+    conv => lhs; rw [hsplit]
+    simp
+  -- absolute rune offset
+  have habs : (r + if idx > 0 then (Posting.ofDocs docs).endRunes.getD (idx - 1) 0 else 0) =
+      runeCount (docs.take idx).flatten + r := by
+    by_cases h0 : idx > 0
+    · simp only [h0, if_true]
+      rw [inv.erVal (idx - 1) (by omega)]
+      have : idx - 1 + 1 = idx := by omega
+      rw [this]; omega
+    · have : idx = 0 := by omega
+      subst this
+      simp [runeCount_nil]
+  have htot : runeCount (Posting.ofDocs docs).corpus =
+      runeCount (docs.take idx).flatten + (runeCount (docs.getD idx []) + runeCount (docs.drop (idx + 1)).flatten) := by
+    rw [hC, runeCount_append hcpre, runeCount_append hcd]
+  have hq : (runeCount (docs.take idx).flatten + r) / freq < (Posting.ofDocs docs).samples.length := by
+    rw [inv.slen, inv.rc, htot]
+    simp only [cnt, freq]; omega
+  have hqc : (runeCount (docs.take idx).flatten + r) / freq < cnt (Posting.ofDocs docs).runeCount := by
+    rw [← inv.slen]; exact hq
+  unfold findOffset
+  simp only [Bool.false_eq_true, if_false, habs]
+  rw [lookup_exact _ _ hq]
+  simp only
+  rw [inv.sval _ hqc, inv.bdVal idx (by omega)]
+  have hleft : (runeCount (docs.take idx).flatten + r) % freq ≤ 99 := by simp only [freq]; omega
+  have e : 100 * ((runeCount (docs.take idx).flatten + r) / freq) + (runeCount (docs.take idx).flatten + r) % freq =
+      runeCount (docs.take idx).flatten + r := by
+    simp only [freq]; omega
+  have hwalk : ∀ dat : Bytes,
+      advance ((runeCount (docs.take idx).flatten + r) % freq) dat =
+        advance ((runeCount (docs.take idx).flatten + r) % freq)
+          ((Posting.ofDocs docs).corpus.drop (advance (100 * ((runeCount (docs.take idx).flatten + r) / freq)) (Posting.ofDocs docs).corpus)) →
+      advance (100 * ((runeCount (docs.take idx).flatten + r) / freq)) (Posting.ofDocs docs).corpus +
+        advance ((runeCount (docs.take idx).flatten + r) % freq) dat - (docs.take idx).flatten.length =
+        advance r (docs.getD idx []) := by
+    intro dat hdat
+    rw [hdat, ← advance_add, e, hC, advance_append hcpre, advance_append_of_boundary r _ _ (hcd _) (by omega)]
+    omega
+  cases limit with
+  | none => exact hwalk _ rfl
+  | some n => exact hwalk _ (advance_take _ _ _ (by have := hlim n rfl; omega))
+
+/-- the PlainASCII short-circuit: in an all-ASCII document the `r`-th rune is at byte `r` -/
+theorem findOffset_plain (d : Bytes) (h : ∀ b ∈ d, b.toNat < 0x80) (r : Nat) (hr : r ≤ d.length) : advance r d = r := by
+  induction r generalizing d with
+  | zero => rfl
+  | succ r ih =>
+    cases d with
+    | nil => simp at hr
+    | cons b t =>
+      rw [advance_succ, runeSize_ascii b t (h b (by simp))]
+      simp only [List.drop_succ_cons, List.drop_zero]
+      rw [ih t (fun x hx => h x (by simp [hx])) (by simpa using hr)]
+      omega
+
+/-- a document that is empty or ends with an ASCII byte (e.g. a newline) is `Clean`; so is every valid UTF-8 document -/
+theorem clean_of_last_ascii (d : Bytes) (h : d = [] ∨ ∃ b, d.getLast? = some b ∧ b.toNat < 0x80) : Clean d := by
+  intro rest
+  rcases h with rfl | ⟨b, hb, hascii⟩
+  · exact IsBoundary.zero _
+  · have hne : d ≠ [] := by intro h; subst h; simp at hb
+    have hlen : 0 < d.length := List.length_pos_iff.mpr hne
+    have hget : (d ++ rest).getD (d.length - 1) 0 = b := by
+      rw [getD_append_left _ _ _ _ (by omega)]
+      rw [List.getLast?_eq_getElem?] at hb
+      simp [List.getD_eq_getElem?_getD, hb]
+    have := isBoundary_succ_of_ascii (d ++ rest) (d.length - 1) (by simp; omega) (by rw [hget]; exact hascii)
+    have e : d.length - 1 + 1 = d.length := by omega
+    rwa [e] at this
+
+/-- the unfixed code read `3 * runeOffsetFrequency` bytes: after 75 four-byte runes the window is exhausted and the walk
+    stops advancing (the defect found by this check, fixed in the repository): `advance_take` needs its factor 4 -/
+/-! non-vacuity of `findOffset_exact`: "aé\n" and "b" -/
+example : findOffset (Posting.ofDocs [[97, 0xC3, 0xA9, 10], [98]]) false (some (readLen 4)) 0 2 = 3 := by
+  have h := findOffset_exact [[97, 0xC3, 0xA9, 10], [98]]
+    (by
+      intro d hd
+      have : d = [97, 0xC3, 0xA9, 10] ∨ d = [98] := by simpa using hd
+      rcases this with rfl | rfl
+      · exact clean_of_last_ascii _ (Or.inr ⟨10, by decide, by decide⟩)
+      · exact clean_of_last_ascii _ (Or.inr ⟨98, by decide, by decide⟩))
+    0 2 (by decide) (by decide) (some (readLen 4)) (by intro n hn; cases hn; decide)
+  rw [h]; decide
+
+def fourByteRun : Bytes := (List.replicate 76 [0xF0, 0x9F, 0x98, 0x80]).flatten ++ [97]
+theorem walk_needs_four_bytes_per_rune :
+    advance 76 (fourByteRun.take (readLen 3)) = 300 ∧ advance 76 fourByteRun = 304 := by
+  set_option maxRecDepth 100000 in decide
 
 /-! non-vacuity: candidates of three atoms, one below `not`, with overlaps, a same-offset tie (the longer wins),
     adjacent matches (both kept) and file-name matches (sorted first, never compared with content matches) -/
